@@ -171,7 +171,8 @@ class PseudoCallee(object):
 class Policy(object):
     """What to evaluate in place.  `opaque`: qnames (or keys) of in-crate bodies that stay calls;
     `only`: if given, the only in-crate bodies that are evaluated in place (closures always are)."""
-    def __init__(self, opaque=(), only=None, models=True, max_depth=MAX_DEPTH):
+    def __init__(self, opaque=(), only=None, models=True, max_depth=MAX_DEPTH, opaque_names=()):
+        self.opaque_names = set(opaque_names)
         self.opaque = set(opaque)
         self.only = set(only) if only is not None else None
         self.models = models
@@ -179,6 +180,8 @@ class Policy(object):
 
     def inline(self, body):
         if body.qname in self.opaque or body.key in self.opaque:
+            return False
+        if body.name in self.opaque_names and not body.is_closure:
             return False
         if body.is_closure:
             return True
@@ -991,6 +994,8 @@ def _kind_of(c):
         return "try"
     if c.name in ("retain", "retain_mut") and not c.trait:
         return "vec"
+    if c.crate in ("rayon", "rayon_core"):
+        return "rayon"
     return None
 
 
